@@ -81,9 +81,12 @@ def run(ck, ic=False, tag="C07"):
             pats.append("i" + base)
     pats += ["?" + r for r in SAFE_REGEX] + ["i?" + r for r in SAFE_REGEX]
     pats += ["*", "i*", "**", "i**", "i", "ii", "iI", "I", "'", '"', "i'", "'a", "a'", "*'a'*", "'*a*'", '"*"', "'a*", "*a'", "a*b", "*a*b*",
-             "a**", "**a", "i'A'", 'i"Ab"', "*é*", "iÉ", "é", "iÄ", "iä*", "*𝟙"]
+             "a**", "**a", "i'A'", 'i"Ab"', "*é*", "iÉ", "é", "iÄ", "iä*", "*𝟙",
+             # quotes that do not pair up: plain text, nothing is stripped
+             "\"a'", "'a\"", "i\"a'", "i'A\"", "\"ab'", "'\"", "\"'", "'a'b'", "\"a\"b", "''a", "a\"\"", "i''", "i\"\"", "'\"a\"'", "\"'a'\""]
     pats = list(dict.fromkeys(pats))
-    extra_hays = ["aXb", "ab ab", "é", "É", "Ä", "ä", "äb", "x*y", "'a'", '"', "'", "i", "I", "*", "a*", "𝟙", "a\nb", "AB", "aB"]
+    extra_hays = ["aXb", "ab ab", "é", "É", "Ä", "ä", "äb", "x*y", "'a'", '"', "'", "i", "I", "*", "a*", "𝟙", "a\nb", "AB", "aB",
+                  "\"a'", "'a\"", "\"A'", "\"ab'", "'\"", "\"'", "a'b", "'a'b'", "\"a\"", "'a", "a\"", "\"\"", "''"]
     hays_all = hays + extra_hays
     docs = [{"f": h} for h in hays_all] + [{}]
     ddocs = [D(d) for d in docs]
